@@ -186,6 +186,7 @@ class Engine:
         st = State()
         self.params: dict[str, Val] = {}
         self.local_alias = self._renamed_locals(node, c)
+        self.callee_facts: dict = {}  # postconditions of callee contracts that were assumed (for the vacuity guards)
         argnames = [a.arg for a in node.args.posonlyargs + node.args.args + node.args.kwonlyargs]
         if node.args.vararg:
             argnames.append(node.args.vararg.arg)
@@ -234,7 +235,7 @@ class Engine:
         for ex in self.exits:
             # (exceptional exits are created under the condition of the implicit exception, which is often excluded by
             #  what is known: those are simply unreachable)
-            if ex.kind == "return" and not self.feasible(ex.st):
+            if ex.kind == "return" and not self.feasible(ex.st) and self._feasible_without_callee_facts(ex.st):
                 raise Unsupported(f"vacuous: the assumptions on the path to the {ex.kind} at line {ex.line} contradict "
                                   f"each other (an assumed contract or invariant excludes the path)", node)
         for ex in self.exits:
@@ -325,7 +326,19 @@ class Engine:
         for h in st.pc:
             if not _has_quantifier(h):
                 s.add(h)
-        r = s.check()
+        import time as _time
+        for _ in range(6):
+            t0 = _time.time()
+            r = s.check()
+            # z3's cancel flag is shared by all solvers of a context: a timer of an earlier, timed-out query can fire late
+            # and "cancel" an unrelated later one at once.  Such a spurious answer is immediate: ask again.
+            if not (r == z3.unknown and s.reason_unknown() == "canceled" and _time.time() - t0 < 0.25):
+                break
+        if r == z3.unknown and os.environ.get("PYVC_FEAS_DEBUG"):
+            with open(os.environ["PYVC_FEAS_DEBUG"], "a") as fh:
+                fh.write(f"{self.c.name} unknown: {s.reason_unknown()} nassert={len(s.assertions())}\n")
+                if os.environ.get("PYVC_FEAS_DUMP"):
+                    fh.write(s.to_smt2()[-3000:] + "\n----\n")
         if os.environ.get("PYVC_FEAS_STATS"):
             try:
                 used = s.statistics().get_key_value("rlimit count")
@@ -334,6 +347,13 @@ class Engine:
             with open(os.environ["PYVC_FEAS_STATS"], "a") as fh:
                 fh.write(f"{used} {r}\n")
         return r != z3.unsat
+
+    def _feasible_without_callee_facts(self, st: State) -> bool:
+        """A path that is unreachable by the function's own conditions is dead code; one that only becomes unreachable
+        through what a callee's contract promised is suspicious (a contradictory assumed contract)."""
+        s2 = st.copy()
+        s2.pc = [h for h in st.pc if h.get_id() not in self.callee_facts]
+        return self.feasible(s2)
 
     def do_raise(self, st: State, exc: str, line, cond=None):
         """Record an exceptional exit under `cond` (None = unconditional)."""
@@ -1479,6 +1499,10 @@ class Engine:
         st.assume(z3.ForAll([i], z3.Implies(z3.And(0 <= i, i < na + nb),
                                             ri == z3.If(i < na, z3.Select(ty.arr(a.t), i),
                                                         z3.Select(ty.arr(b.t), i - na))), patterns=[ri]))
+        # the same link stated from the operands' side: a ground a[t] (b[t]) makes its position in the result known
+        ai, bi = z3.Select(ty.arr(a.t), i), z3.Select(ty.arr(b.t), i)
+        st.assume(z3.ForAll([i], z3.Implies(z3.And(0 <= i, i < na), ri == ai), patterns=[ai]))
+        st.assume(z3.ForAll([i], z3.Implies(z3.And(0 <= i, i < nb), z3.Select(ty.arr(r.t), na + i) == bi), patterns=[bi]))
         return r
 
     def e_Compare(self, node, st):
@@ -1914,6 +1938,8 @@ class Engine:
         if c.ensures:
             for _, cl in c.ensures(SYM, a, unwrap(r), self._ns(post_vals)).items():
                 st.assume(cl)
+                if isinstance(cl, z3.ExprRef):
+                    self.callee_facts[cl.get_id()] = cl  # (kept alive: ids are only unique among live terms)
         self._post_vals = post_vals
         return r
 
@@ -2245,6 +2271,18 @@ class Engine:
             return Val(TBool, z3.ForAll([j], z3.Implies(rng, b)) if is_all else z3.Exists([j], z3.And(rng, b)))
         raise Unsupported("any/all argument", node)
 
+    def b_map(self, node, st, hint=None):
+        """map(f, xs) with f a name: the sequence (f(x) for x in xs)."""
+        if len(node.args) != 2 or node.keywords or not isinstance(node.args[0], ast.Name):
+            raise Unsupported("map(...) form", node)
+        var = fresh_name("$mx").replace("!", "_")
+        gen = ast.GeneratorExp(
+            elt=ast.Call(func=ast.Name(id=node.args[0].id, ctx=ast.Load()), args=[ast.Name(id=var, ctx=ast.Load())], keywords=[]),
+            generators=[ast.comprehension(target=ast.Name(id=var, ctx=ast.Store()), iter=node.args[1], ifs=[], is_async=0)])
+        ast.copy_location(gen, node)
+        ast.fix_missing_locations(gen)
+        return self.comp_to_seq(gen, st, hint)
+
     def b_next(self, node, st, hint=None):
         """next(e for x in xs if c): the element built from the first x that passes; StopIteration when none does."""
         if len(node.args) != 1 or node.keywords or not isinstance(node.args[0], ast.GeneratorExp):
@@ -2436,13 +2474,14 @@ def _const_names(t) -> set[str]:
     return out
 
 
-_QCACHE: dict[int, bool] = {}
+_QCACHE: dict = {}
 
 
 def _has_quantifier(t) -> bool:
     k = t.get_id()
-    if k in _QCACHE:
-        return _QCACHE[k]
+    hit = _QCACHE.get(k)
+    if hit is not None and hit[0].eq(t):  # (ids are reused once a term is freed: the entry keeps its term alive)
+        return hit[1]
     seen = set()
     stack = [t]
     res = False
@@ -2456,7 +2495,9 @@ def _has_quantifier(t) -> bool:
             continue
         seen.add(i)
         stack.extend(x.children())
-    _QCACHE[k] = res
+    if len(_QCACHE) > 50000:
+        _QCACHE.clear()
+    _QCACHE[k] = (t, res)
     return res
 
 
